@@ -109,7 +109,11 @@ impl Search {
     /// ```
     pub fn search(&mut self, evaluator: &impl Evaluator, max_depth: Option<Depth>) {
         // Uses a heuristic to determine the maximum time to spend on a move
+        #[cfg(rce_verif)]
+        crate::rce_verif::point("search.enter");
         self.start();
+        #[cfg(rce_verif)]
+        crate::rce_verif::point("search.armed");
 
         self.limits.time_management_timer = match self.board.current_turn {
             Color::White => {
@@ -127,6 +131,8 @@ impl Search {
         self.iter_deep(evaluator, max_depth);
 
         self.stop();
+        #[cfg(rce_verif)]
+        crate::rce_verif::point("search.exit");
     }
 
     /// Iterates through the search at increasing depths until the search is stopped or the maximum depth is reached
@@ -154,9 +160,15 @@ impl Search {
 
             let pv = self.get_pv(depth);
             self.log_uci_info(depth, Some(start.elapsed().as_millis()), &pv);
+            #[cfg(rce_verif)]
+            crate::rce_verif::point("search.iter_done");
         }
 
+        #[cfg(rce_verif)]
+        crate::rce_verif::point("search.before_bestmove");
         self.log(format!("bestmove {}", self.info.best_move.unwrap()).as_str());
+        #[cfg(rce_verif)]
+        crate::rce_verif::point("search.after_bestmove");
     }
 
     /// Initializes the alpha-beta search and returns the best move found
@@ -262,6 +274,20 @@ impl Search {
 
         // Don't save incomplete searches
         if self.is_running() && !self.limits_exceeded(start) {
+            #[cfg(rce_verif)]
+            crate::rce_verif::on_tt_insert(
+                0,
+                self.board.zkey.rce_verif_u64(),
+                &TTEntry {
+                    score: alpha,
+                    depth,
+                    bound: Bounds::Exact,
+                    best_ply,
+                },
+                self.info.nodes,
+                self.limits.nodes,
+                self.running.load(Ordering::Relaxed),
+            );
             TRANSPOSITION_TABLE
                 .write()
                 .expect("Transposition table is poisoned! Unable to write new entry.")
@@ -326,6 +352,8 @@ impl Search {
         }
 
         // Check if we have more information in the TTable than we have already reached in this search
+        #[cfg(rce_verif)]
+        crate::rce_verif::tt_neutralise();
         if let Some(entry) = TRANSPOSITION_TABLE
             .read()
             .expect("Transposition table is poisoned! Unable to read entry.")
@@ -412,6 +440,20 @@ impl Search {
 
             // Move is too good, opponent will not allow the game to reach this position
             if score >= beta {
+                #[cfg(rce_verif)]
+                crate::rce_verif::on_tt_insert(
+                    1,
+                    self.board.zkey.rce_verif_u64(),
+                    &TTEntry {
+                        score,
+                        depth,
+                        bound: Bounds::Lower,
+                        best_ply: mv,
+                    },
+                    self.info.nodes,
+                    self.limits.nodes,
+                    self.running.load(Ordering::Relaxed),
+                );
                 TRANSPOSITION_TABLE
                     .write()
                     .expect("Transposition table is poisoned! Unable to write new entry.")
@@ -445,6 +487,24 @@ impl Search {
             return 0; // Stalemate
         }
 
+        #[cfg(rce_verif)]
+        crate::rce_verif::on_tt_insert(
+            2,
+            self.board.zkey.rce_verif_u64(),
+            &TTEntry {
+                score: alpha,
+                depth,
+                bound: if alpha <= alpha_start {
+                    Bounds::Upper
+                } else {
+                    Bounds::Exact
+                },
+                best_ply,
+            },
+            self.info.nodes,
+            self.limits.nodes,
+            self.running.load(Ordering::Relaxed),
+        );
         TRANSPOSITION_TABLE
             .write()
             .expect("Transposition table is poisoned! Unable to write new entry.")
@@ -542,6 +602,8 @@ impl Search {
     /// let limits_exceeded = search.check_limits();
     /// ```
     fn limits_exceeded(&self, start: Instant) -> bool {
+        #[cfg(rce_verif)]
+        let start = crate::rce_verif::virtual_start(start);
         if self.info.depth == Depth::MAX {
             return true;
         }
@@ -723,6 +785,12 @@ impl Search {
         self.info.nodes
     }
 
+    /// Verification accessor: (best move, best score, nodes) of the finished search.
+    #[cfg(rce_verif)]
+    pub const fn rce_verif_result(&self) -> (Option<Ply>, Option<Score>, NodeCount) {
+        (self.info.best_move, self.info.best_score, self.info.nodes)
+    }
+
     /// Sets the `AtomicBool` that is used to determine if the search should continue to true
     /// Normally called by the search function.
     ///
@@ -769,6 +837,8 @@ impl Search {
     /// let running = search.check_running();
     /// ```
     pub fn is_running(&self) -> bool {
+        #[cfg(rce_verif)]
+        crate::rce_verif::on_is_running(&self.running);
         self.running.load(Ordering::Relaxed)
     }
 }
